@@ -10,6 +10,11 @@ package hxlib
 //	                   inputs: compiler.Compiler.Compile + Circuit.Compute.
 //	CompileSSA         the SSA program the streaming garbler walks (after
 //	                   Program.GC), structured.
+//	RunStreamProgram   the same session for an (edited) *ssa.Program.
+//	ParseStreamTranscript (streamtranscript.go) parses d.AB.Rec of an ideal-OT
+//	                   session: key, input labels, every OpCircuit block (step,
+//	                   gate count, max id, optionally every gate record with its
+//	                   table rows), return wire ids.
 //
 // Used by the C05 check (streaming = whole circuit) and reusable by C04
 // (what the evaluator sees in streaming mode: take d.AB.Rec) and C16
